@@ -430,6 +430,7 @@ func (n *Node) deliver(from int, typ int, payload []byte, idx int) {
 func (n *Node) handle(m inMsg) {
 	n.checkAlive()
 	rt.Yield("deliver")
+	n.w.Observe(&Obs{Node: n.ID, Inc: n.inc, Kind: "handling", Num: int64(m.idx)})
 	hs := n.handlers
 	for _, h := range hs {
 		err := h(n.w.Nodes[m.from].Pubkey, messages.MessageTypeToHexString(messages.MessageType(m.typ)), m.payload)
